@@ -25,6 +25,9 @@ _CN = "tables are enumerated configurations; CrossHair decides over the symbolic
 _add("C06", "bounded symbolic verification (CrossHair) of automaton_accepted / freely_reduced_elements against a reference path enumeration, for all 2x2 tables and symbolic length / options / states", tech=_CT, note=_CN, eng="crosshair")
 _add("C09", "bounded symbolic verification (CrossHair) of view coherence after construction by 4 routes and histories of depth <=2 (quick) / <=3 (thorough) with a symbolic last operation, the no-aliasing representation invariant, and kbmag record loading", tech=_CT, note=_CN, eng="crosshair")
 _add("C10", "bounded symbolic verification (CrossHair) of walk / enumeration / k-multiple / relabelling / recurrent / shortest-path operations against set-based reference models for all 2x2 tables (3x2, 2x3 samples in thorough) and symbolic words, starts, k, maps, roots", tech=_CT, note=_CN, eng="crosshair")
+_add("C07", "bounded model checking: per Coxeter matrix (125 rank-3 + rank-2/4 families in quick; 343 rank-3, 240 rank-4, 10 rank-5 in thorough) the real geodesic / shortlex / even automata tables are compared with an exact cyclotomic Cayley-ball oracle over ALL words up to length 6-12 by one z3 query each",
+     tech="SMT bounded model checking (z3 QF_UFLIA) of the real automaton tables with a symbolic word against an exact cyclotomic-arithmetic oracle; witness words replayed with FSA.accepts",
+     note="Coxeter matrices are enumerated configurations; nothing is claimed beyond the word-length bound; oracle = exact integer arithmetic + Tits faithfulness", eng="smtbmc")
 NA = {}
 def main():
     checks = []
